@@ -25,6 +25,7 @@ class ElemSize (T : Type) where
   bytes : Nat
 instance : ElemSize UInt8 := ⟨1⟩
 instance : ElemSize Nat := ⟨8⟩
+instance : ElemSize F64 := ⟨8⟩
 instance : ElemSize Unit := ⟨0⟩
 instance {A B} [ElemSize A] [ElemSize B] : ElemSize (A × B) := ⟨ElemSize.bytes A + ElemSize.bytes B⟩
 /-- `String` -/
